@@ -1,10 +1,230 @@
 import Driver.Common
-/-! C05 driver (stub: answers bad-op until the property's model is wired in). -/
-open Driver
+import Sourmash.Model.Similarity
+import Sourmash.Spec.Similarity
+/-!
+C05 driver.  Request lines (see `harness/src/bin/c05.rs`):
 
-def stepC05 (s : Unit) (ws : List String) : Unit × Resp :=
+  sk a|b <scaled> <num> <ksize> <dna|protein|dayhoff|hp> <seed> <track 0|1> <mins> <abunds>
+  isz|isect|jac|jacv|ang|angin|angone|angzero  V|T ab|ba
+  cc V|T ab|ba <downsample 0|1>
+  sim V|T ab|ba <ignore_abundance 0|1> <downsample 0|1>
+  cmp|cmpv sig|store|large sim|cont ab|ba
+  search sig|store sim|cont ab|ba <threshold bits>
+
+model column: the executable model of `Sourmash.Model.Similarity` (integer core, then the float tail
+over Lean `Float`); spec column: the set-level definitions of `Sourmash.Spec.Similarity`
+(filter / contains / lookup) pushed through the same tail, plus the verdicts the property demands.
+-/
+open Driver Similarity
+
+structure St where
+  a : Option Sketch := none
+  b : Option Sketch := none
+
+def hex16 (u : UInt64) : String :=
+  String.ofList ((List.range 16).map (fun i => hexDigit ((u.toNat >>> (4 * (15 - i))) % 16)))
+
+def showF (x : Float) : String := if x.isNaN then "nan" else hex16 x.toBits
+
+def hfCode (s : String) : Nat :=
+  if s == "dna" then 0 else if s == "protein" then 1 else if s == "dayhoff" then 2 else 3
+
+def showSketch (s : Sketch) : String :=
+  showNats s.mins ++ "|" ++ (match s.abunds with | some ab => showNats ab | none => "none")
+
+def showErr (e : Err) : String := "err " ++ e.name
+
+def showPair (p : Nat × Nat) : String := toString p.1 ++ " " ++ toString p.2
+
+def b01 (b : Bool) : String := if b then "1" else "0"
+
+def container (s : String) : Container := if s == "T" then .tree else .vec
+
+def order (st : St) (o : String) : Option (Sketch × Sketch) :=
+  match st.a, st.b with
+  | some a, some b => some (if o == "ba" then (b, a) else (a, b))
+  | _, _ => none
+
+def isOk {ε α : Type} : Except ε α → Bool
+  | .ok _ => true
+  | .error _ => false
+
+/-- the parameter space of the property: scaled sketches (num = 0, ceiling set) or num sketches with
+    the same num (no ceiling); outside it the spec column is `-` -/
+def regime (x y : Sketch) : Bool :=
+  isOk (checkCompatible x y) &&
+  ((x.num == 0 && y.num == 0 && x.maxHash != 0) || (x.num != 0 && x.num == y.num && x.maxHash == 0))
+
+def specPair (x y : Sketch) : Option (Nat × Nat) :=
+  if regime x y then some (SimilaritySpec.jaccardPair x.num x.mins y.mins) else none
+
+def specJaccard (x y : Sketch) : Option (Nat × Nat) :=
+  match specPair x y with
+  | some (c, s) => if s == 0 then none else some (c, s)
+  | none => none
+
+def specTriple (x y : Sketch) : Option (Nat × Nat × Nat) :=
+  match x.abunds, y.abunds with
+  | some xa, some ya =>
+    if isOk (checkCompatible x y) then some (SimilaritySpec.angularTriple x.mins xa y.mins ya) else none
+  | _, _ => none
+
+def verdict (v : Float) (one zero : Bool) : String :=
+  if v.isNaN then "nan" else
+  b01 (0.0 ≤ v && v ≤ 1.0) ++ " " ++ b01 one ++ " " ++ b01 zero
+
+/-- which definition the dispatcher must use, at the set level -/
+def specSim (x y : Sketch) (ign : Bool) : String :=
+  if ign || !x.tracked || !y.tracked then
+    match specJaccard x y with
+    | some (c, s) => showF (jaccardTail c s : Float)
+    | none => "-"
+  else
+    match specTriple x y with
+    | some (p, a, b) => showF (angularTail p a b : Float)
+    | none => "-"
+
+def cmpModel (which : String) (x y : Sketch) : Option Float :=
+  if which == "sim" then
+    match similarityCore .vec x y true false with
+    | .ok r => some (simTail r)
+    | .error _ => none
+  else
+    match containmentPair x y with
+    | .ok (c, n) => some (containmentTail c n)
+    | .error _ => none
+
+def cmpSpec (which : String) (x y : Sketch) : Option (Nat × Nat) :=
+  if which == "sim" then specJaccard x y
+  else if isOk (checkCompatible x y) && !x.mins.isEmpty then
+    some (SimilaritySpec.containmentPair x.mins y.mins)
+  else none
+
+def cmpSpecF (which : String) (p : Nat × Nat) : Float :=
+  if which == "sim" then jaccardTail p.1 p.2 else containmentTail p.1 p.2
+
+def stepC05 (st : St) (ws : List String) : St × Resp :=
   match ws with
-  | "case" :: _ => (s, { model := "ok" })
-  | _ => (s, { model := "bad-op" })
+  | "case" :: _ => (st, { model := "ok" })
+  | ["sk", w, sc, num, k, hf, seed, tr, mins, ab] =>
+    let s : Sketch := {
+      num := num.toNat!, ksize := k.toNat!, hf := hfCode hf, seed := seed.toNat!,
+      maxHash := Scaled.maxHashForScaled sc.toNat!, mins := natList mins,
+      abunds := if tr == "1" then some (natList ab) else none }
+    let st := if w == "a" then { st with a := some s } else { st with b := some s }
+    let r := "V:" ++ showSketch s ++ " T:" ++ showSketch s
+    (st, { model := r, spec := r })
+  | [op, c, o] =>
+    match order st o with
+    | none => (st, { model := "no-sketch" })
+    | some (x, y) =>
+      let c := container c
+      if op == "isz" then
+        (st, { model := match intersectionSize c x y with
+                        | .ok p => showPair p
+                        | .error e => showErr e,
+               spec := match specPair x y with
+                       | some p => showPair p
+                       | none => "-" })
+      else if op == "isect" then
+        (st, { model := match intersection c x y with
+                        | .ok (l, s) => showNats l ++ " " ++ toString s
+                        | .error e => showErr e,
+               spec := match specPair x y with
+                       | some (_, s) =>
+                         let i := SimilaritySpec.inter x.mins y.mins
+                         let i := if x.num == 0 then i else
+                           i.filter (fun h => (SimilaritySpec.bottom x.num (SimilaritySpec.union x.mins y.mins)).contains h)
+                         showNats i ++ " " ++ toString s
+                       | none => "-" })
+      else if op == "jac" then
+        (st, { model := match jaccardCore c x y with
+                        | .ok r => showF (simTail r)
+                        | .error e => showErr e,
+               spec := match specJaccard x y with
+                       | some (cm, s) => showF (jaccardTail cm s : Float)
+                       | none => "-" })
+      else if op == "jacv" then
+        (st, { model := match jaccardCore c x y with
+                        | .ok r => let v : Float := simTail r; verdict v (v == 1.0) (v == 0.0)
+                        | .error e => showErr e,
+               spec := match specJaccard x y with
+                       | some (cm, s) => "1 " ++ b01 (cm == s) ++ " " ++ b01 (cm == 0)
+                       | none => "-" })
+      else if op == "ang" then
+        (st, { model := match angularCore c x y with
+                        | .ok r => showF (simTail r)
+                        | .error e => showErr e,
+               spec := if !isOk (checkCompatible x y) then "-"
+                       else match specTriple x y with
+                         | some (p, a, b) => showF (angularTail p a b : Float)
+                         | none => showErr .NeedsAbundanceTracking })
+      else if op == "angin" || op == "angone" || op == "angzero" then
+        let m := match angularCore c x y with
+          | .ok r =>
+            let v : Float := simTail r
+            if op == "angin" then b01 (0.0 ≤ v && v ≤ 1.0)
+            else if op == "angone" then b01 (Float.abs (v - 1.0) ≤ 1e-7)
+            else b01 (v == 0.0)
+          | .error e => showErr e
+        let s := match specTriple x y with
+          | some (p, a, b) =>
+            if op == "angin" then "1"
+            else if op == "angone" then
+              -- equal, non-zero abundance vectors: the cosine is 1
+              if x.mins == y.mins && x.abunds == y.abunds && a != 0 then "1" else "-"
+            else if p == 0 || a == 0 || b == 0 then "1" else "-"
+          | none => "-"
+        (st, { model := m, spec := s })
+      else (st, { model := "bad-op" })
+  | ["cc", _, o, ds] =>
+    match order st o with
+    | none => (st, { model := "no-sketch" })
+    | some (x, y) =>
+      (st, { model := match countCommon x y (ds == "1") with
+                      | .ok n => toString n ++ " " ++ toString x.size
+                      | .error e => showErr e,
+             spec := if isOk (checkCompatible x y) then showPair (SimilaritySpec.containmentPair x.mins y.mins) else "-" })
+  | ["sim", c, o, ign, ds] =>
+    match order st o with
+    | none => (st, { model := "no-sketch" })
+    | some (x, y) =>
+      (st, { model := match similarityCore (container c) x y (ign == "1") (ds == "1") with
+                      | .ok r => showF (simTail r)
+                      | .error e => showErr e,
+             spec := if isOk (checkCompatible x y) && x.tracked && y.tracked && ign != "1" then
+                       -- both tracked, abundance not ignored: the angular definition, refusal impossible
+                       specSim x y false
+                     else specSim x y true })
+  | [op, kind, which, o] =>
+    match order st o with
+    | none => (st, { model := "no-sketch" })
+    | some (x, y) =>
+      if kind == "large" then (st, { model := "PANIC" })   -- `unimplemented!()` for LargeMinHash
+      else
+      let m := cmpModel which x y
+      let s := cmpSpec which x y
+      if op == "cmp" then
+        (st, { model := match m with | some v => showF v | none => "PANIC",
+               spec := match s with | some p => showF (cmpSpecF which p) | none => "-" })
+      else if op == "cmpv" then
+        (st, { model := match m with | some v => verdict v (v == 1.0) (v == 0.0) | none => "PANIC",
+               spec := match s with
+                       | some (cm, n) => "1 " ++ b01 (cm == n) ++ " " ++ b01 (cm == 0)
+                       | none => "-" })
+      else (st, { model := "bad-op" })
+  | ["search", kind, which, o, thr] =>
+    match order st o with
+    | none => (st, { model := "no-sketch" })
+    | some (x, y) =>
+      let t := Float.ofBits (UInt64.ofNat (thr.toNat!))
+      let _ := kind
+      (st, { model := match cmpModel which x y with
+                      | some v => toString (decide (v > t))
+                      | none => "PANIC",
+             spec := match cmpSpec which x y with
+                     | some p => toString (decide (cmpSpecF which p > t))
+                     | none => "-" })
+  | _ => (st, { model := "bad-op" })
 
-def main : IO Unit := Driver.run () stepC05
+def main : IO Unit := Driver.run ({} : St) stepC05
